@@ -38,6 +38,7 @@ Step ==
          /\ called' = called \ {e.req}
          /\ returned' = returned \cup {e.req}
          /\ bad' = IF e.req \in returned THEN "OutcomeOnce"
+                   ELSE IF e.outcome = "garbled" THEN "NoMisroute"      \* handed something that is not its response
                    ELSE IF e.outcome \notin Allowed THEN "OutcomeAllowed"
                    ELSE IF e.outcome = "resp" /\ e.echo # e.tok THEN "NoMisroute"
                    ELSE OK
